@@ -263,6 +263,27 @@ def codecs():
         for h in ('ignore', 'replace', 'backslashreplace', 'xmlcharrefreplace'):
             for t in ['', 'a', 'é', 'aé€b', '\U0001f600', '\ud800x', 'x\udfff', 'Āÿ\x80\x7f', '\ufeff']:
                 n += _cmp('encode[%s,%s]' % (enc, h), lambda x: x.encode(enc, h), lambda x: codecs_model.encode(lift(x) if x else x, enc, h), t)
+    # incremental decoders: every split of each blob into two / three feeds, with and without final=True
+    import codecs as _c
+    from .codecs_model import SymIncrementalDecoder
+
+    def feed(mk, parts, final):
+        d = mk()
+        out = []
+        for i, p in enumerate(parts):
+            out.append(d.decode(p, final and i == len(parts) - 1))
+        return out
+    inc_blobs = [b'', b'a', b'\xc3\xa9', b'a\xe2\x82\xacb', b'\xf0\x9f\x98\x80', b'\xef\xbb\xbfa', b'\xff\xfea\x00', b'\xfe\xff\x00a',
+                 b'a\x00b\x00', b'\x3d\xd8\x00\xde', b'\xd8\x3d\xde\x00', b'\xff\xfe\x00\x00a\x00\x00\x00', b'a\x00\x00\x00',
+                 b'\x00\x00\x00a', b'\xe0\x80', b'\xed\xa0\x80', b'\xc3', b'\x80', b'\xf4\x90', b'a\n\xc3', b'\xef\xbb', b'\xff']
+    for enc in CODECS:
+        for b in inc_blobs:
+            for i in range(len(b) + 1):
+                for j in sorted({i, len(b)}):
+                    parts = [b[:i], b[i:j], b[j:]] if j > i else [b[:i], b[i:]]
+                    for final in (False, True):
+                        n += _cmp('incdec[%s]' % enc, lambda *ps: feed(lambda: _c.getincrementaldecoder(enc)(), ps, final),
+                                  lambda *ps: feed(lambda: SymIncrementalDecoder(enc), [lift(p) if len(p) else p for p in ps], final), *parts)
     # codecs outside the bit-exact model (table codecs, non-text codecs, unknown names), name symbolic and pinned
     for enc in ['cp1252', 'koi8-r', 'uu', 'hex', 'rot13', 'base64', 'zlib', 'idna', 'punycode', 'no-such', 'U8', 'l1', 'Utf_16']:
         for t in ['a', 'hi\n', 'é']:
